@@ -357,7 +357,7 @@ func genC12Bad(t *rapid.T, th bool) *Case {
 	}
 	nb := rapid.IntRange(0, 3).Draw(t, "nbad")
 	for i := 0; i < nb; i++ {
-		c.Cfg.PreBad = append(c.Cfg.PreBad, BadEnt{Pos: rapid.IntRange(0, n).Draw(t, "pos"), Kind: rapid.IntRange(0, 4).Draw(t, "badkind")})
+		c.Cfg.PreBad = append(c.Cfg.PreBad, BadEnt{Pos: rapid.IntRange(0, n).Draw(t, "pos"), Kind: rapid.IntRange(0, 6).Draw(t, "badkind")})
 	}
 	// a client keeps submitting behind the pre-loaded entries
 	var ops []Op
@@ -399,6 +399,11 @@ func oC12Bad(ix *Index) []Violation {
 		}
 		if ev := j.EnterEvs[0]; ev.S != it.ID || ev.D != it.S {
 			out = append(out, v("C12", "fidelity", "stored entry %d reached the worker function with id %q data %q, stored were %q %q", it.N, ev.S, ev.D, it.ID, it.S))
+		}
+	}
+	for n, j := range ix.Jobs {
+		if n < 0 && len(j.Enters) > 0 {
+			out = append(out, v("C12", "bad-entry-executed", "an undecodable stored entry (well-formed prefix, then more bytes) was handed to the worker function as job %d instead of being reported and skipped", n))
 		}
 	}
 	if ix.C.Cfg.ErrsReader && len(ix.C.Cfg.PreBad) > 0 && len(ix.WErrs) == 0 {
